@@ -167,10 +167,16 @@ logging.disable(logging.CRITICAL)
 n, w, m, raises, tol, tdur, cdelay = json.loads(sys.argv[1])
 import annet.parallel as P
 raises = set(raises)
+attempts = {}
 def f(i):
     time.sleep(tdur * ((i * 7) % 5) / 4.0)
+    k = attempts[i] = attempts.get(i, 0) + 1
     if i in raises:
+        if i % 2:
+            raise BrokenPipeError("task %d: network failure on every attempt" % i)
         raise ValueError("task %d failed" % i)
+    if i % 5 == 3 and k <= i % 3 + 1:
+        raise ConnectionResetError("task %d: transient network failure, attempt %d" % (i, k))
     return i * 10
 out = []; end = "done"; exc = ""
 try:
@@ -191,6 +197,68 @@ def real_run(args):
         if line.startswith("RESULT "):
             return json.loads(line[7:])
     raise core.Machinery("real-process run produced no result: %r rc=%d" % (args, p.returncode))
+
+
+def retry_cases(ctx):
+    """inside one worker: the retry loop around the task.  MC_Retry enumerates (net_retry, what the task does on its k-th call); each
+    case is run through the real invoke_retry in four exception flavours and judged by Trace_Retry (P-layer of spec/Retry.tla)"""
+    import annet.parallel as P
+    r = ctx.mc("mc/MC_Retry.tla", "mc/MC_Retry.cfg", workers=1)
+    if r.violated:
+        ctx.reject("mc-retry", "Retry model violates %s" % r.violated, {"tlc": r.out[-3000:]}, None)
+        return
+    cs = [json.loads(c[0]) for c in core.parse_tagged(r.out, "CASE")]
+    if len(cs) < 900:
+        raise core.Machinery("MC_Retry emitted %d cases" % len(cs))
+
+    class Fatal(Exception):
+        pass
+
+    def boom(kind, flavour):
+        if kind == "fatal":
+            raise Fatal("not a network error")
+        if flavour == 0:
+            raise BrokenPipeError("pipe")
+        if flavour == 1:
+            raise ConnectionResetError("reset")
+        try:
+            raise BrokenPipeError("inner")
+        except BrokenPipeError:
+            raise RuntimeError("wrapped network error")      # the network error sits in the __context__ chain
+
+    recs = []
+    for ci, c in enumerate(cs):
+        for flavour in range(4):
+            calls = [0]
+
+            def task(dev, _c=c, _f=flavour, _calls=calls):
+                _calls[0] += 1
+                kind = _c["pat"][_calls[0] - 1] if _calls[0] <= len(_c["pat"]) else "fatal"
+                if _f == 3:                 # generator-style task: the body runs when the result is collected
+                    def gen():
+                        yield dev
+                        if kind != "ok":
+                            boom(kind, _calls[0] % 3)
+                        yield dev * 10
+                    return gen()
+                if kind != "ok":
+                    boom(kind, _f)
+                return dev * 10
+            try:
+                res = P.invoke_retry(task, c["n"], 7)
+                outcome, ok = "returned", (res == ([7, 70] if flavour == 3 else 70))
+            except (Fatal, BrokenPipeError, ConnectionResetError, RuntimeError):
+                outcome, ok = "raised", False
+            recs.append({"id": "retry-%d-%d" % (ci, flavour), "n": c["n"], "pat": c["pat"], "outcome": outcome, "calls": calls[0], "value_ok": ok,
+                         "flavour": flavour})
+            ctx.count()
+            if "net" in c["pat"][:c["n"] + 1]:
+                ctx.nontrivial(("retry", c["n"], tuple(c["pat"]), flavour))
+    verd = ctx.judge("trace/Trace_Retry.tla", "trace/Trace.cfg", recs, shards=4)
+    for rec in recs:
+        v = verd[rec["id"]][0]
+        if v != "ok":
+            ctx.reject(rec["id"], v, rec, None)
 
 
 def run(ctx):
@@ -215,6 +283,7 @@ def run(ctx):
     if "AllDelivered" not in r.violated:
         raise core.Machinery("anti-vacuity: the pre-repair loop (Drain=FALSE) no longer violates AllDelivered in the model")
     ctx.cov["mc_runs"][-1]["expected"] = "AllDelivered violated (regression instance of the pre-repair loop)"
+    retry_cases(ctx)
     # ---------------- B. S2C
     sims = [(4, 2, 2, (), True), (3, 2, 1, (2,), True), (4, 3, 0, (), True), (3, 2, 0, (2,), False), (5, 2, 2, (1, 5), True)]
     if not quick:
